@@ -33,10 +33,11 @@ import (
 func main() { tx.Main(tx.Unit{Name: "T7", File: "GenRoutes.v", Fn: genRoutes}) }
 
 type router struct {
-	name   string
-	root   bool
-	parent *router
-	mw     bool
+	name    string
+	root    bool
+	parent  *router
+	mw      bool
+	created string // condition under which the router was created ("" = unconditionally)
 }
 
 func (r *router) guarded() bool {
@@ -276,11 +277,8 @@ func (c *fileCtx) walkStmt(s ast.Stmt, cond string) {
 			}
 			if p, ok := c.routers[bn]; ok && lhs != "" && len(cs) == 2 && cs[0].name == "NewRoute" && len(cs[0].args) == 0 &&
 				cs[1].name == "Subrouter" && len(cs[1].args) == 0 {
-				if cond != "" {
-					c.unknown(st) // a conditionally created sub-router: not handled
-					return
-				}
-				c.routers[lhs] = &router{name: lhs, parent: p}
+				// a sub-router created under a condition only ever carries routes registered under that condition
+				c.routers[lhs] = &router{name: lhs, parent: p, created: cond}
 				return
 			}
 		}
@@ -295,7 +293,7 @@ func (c *fileCtx) walkStmt(s ast.Stmt, cond string) {
 						all = false
 					}
 				}
-				if all && len(cs[0].args) == 1 && cond == "" {
+				if all && len(cs[0].args) == 1 && (cond == "" || cond == r.created) {
 					r.mw = true
 				}
 				// a Use of something else adds a middleware but no protection; a conditional Use protects nothing for sure
@@ -337,6 +335,12 @@ func (c *fileCtx) registers(fd *ast.FuncDecl) bool {
 			base, cs := chain(es.X)
 			if _, ok := c.routers[exprName(base)]; ok && len(cs) > 0 {
 				found = true
+			}
+		}
+		if as, ok := n.(*ast.AssignStmt); ok && len(as.Rhs) == 1 {
+			base, cs := chain(as.Rhs[0])
+			if _, ok := c.routers[exprName(base)]; ok && len(cs) > 0 {
+				found = true // derives a sub-router
 			}
 		}
 		return !found
